@@ -556,8 +556,8 @@ func (g *Genome) mateSinglePoint(og *Genome, genomeId int) (*Genome, error) {
 			}
 		}
 		if chosenGene == nil {
-			// no gene was chosen - no need to process further - exit cycle
-			break
+			// no gene was chosen yet (the genes seen so far belong to the wrong genome before the cross point) - keep walking
+			continue
 		}
 
 		// Check to see if the chosen gene conflicts with an already chosen gene i.e. do they represent the same link
